@@ -17,7 +17,7 @@ import (
 // source of a match after a Shrink. The observers are the same as for every
 // other history.
 
-var scaleAll = []string{"manyseq", "longtail", "noiserun", "longmatch", "hugeshrink", "stutter", "dense"}
+var scaleAll = []string{"manyseq", "longtail", "noiserun", "longmatch", "hugeshrink", "stutter", "dense", "tandem"}
 
 func isSA(typ string) bool { return typ == "GSAP" || typ == "OSAP" }
 
@@ -230,6 +230,26 @@ func (h *histProp) genScale(r *rand.Rand, typ string, idx int64, o gen.Opts) PCa
 		ops := []POp{{K: "write", A: 0, B: len(stream)}}
 		ops = append(ops, parses(8, 0)...)
 		pc = PCase{Cfg: c, Family: "dense", Stream: stream, Ops: ops}
+	case "tandem":
+		// X X and X X X with |X| of 15-45 kB over few letters, and source text
+		// repeated three times: the inputs that use up the work budget of the
+		// suffix sorter
+		c := scaleCfg(r, typ, o, 8)
+		var stream []byte
+		if variant&1 == 0 {
+			stream = gen.Tandem(r, 15000+r.Intn(30000), 2+r.Intn(2), 2+r.Intn(5))
+			stream = append(stream, gen.PeriodicRun(r, 1, r.Intn(20), 256)...)
+		} else {
+			x := gen.Family(r, "text", 60000+r.Intn(60000), c.Hint())
+			stream = append(append(append(stream, x...), x...), x...)
+		}
+		c.BufferSize = len(stream) + r.Intn(1000)
+		c.WindowSize = c.BufferSize
+		c.BlockSize = []int{1 << 16, 1 << 17, len(stream)}[r.Intn(3)]
+		c.ShrinkSize = 1 << 15
+		ops := []POp{{K: "write", A: 0, B: len(stream)}}
+		ops = append(ops, parses(len(stream)/c.BlockSize+2, 0, 0, ntl)...)
+		pc = PCase{Cfg: c, Family: "tandem", Stream: stream, Ops: ops}
 	case "allsources":
 		// every position retained by a Shrink (more than 32 Ki of them) is the
 		// only source of one four-byte piece of the next fill
